@@ -20,11 +20,9 @@ import (
 	"errors"
 	"fmt"
 	"reflect"
-	"runtime/debug"
 	"strings"
 
 	"github.com/cloudwego/eino/internal/generic"
-	"github.com/cloudwego/eino/internal/safe"
 	"github.com/cloudwego/eino/schema"
 )
 
@@ -167,7 +165,8 @@ func buildFieldMappingConverter[I any]() func(input any) (any, error) {
 	return func(input any) (any, error) {
 		in, ok := input.(map[string]any)
 		if !ok {
-			panic(newUnexpectedInputTypeErr(reflect.TypeOf(map[string]any{}), reflect.TypeOf(input)))
+			// e.g. the zero value a node gets when none of its data predecessors ran: a request-time condition
+			return nil, newUnexpectedInputTypeErr(reflect.TypeOf(map[string]any{}), reflect.TypeOf(input))
 		}
 
 		return convertTo(in, generic.TypeOf[I]())
@@ -178,7 +177,12 @@ func buildStreamFieldMappingConverter[I any]() func(input streamReader) streamRe
 	return func(input streamReader) streamReader {
 		s, ok := unpackStreamReader[map[string]any](input)
 		if !ok {
-			panic("mappingStreamAssign incoming streamReader chunk type not map[string]any")
+			// reported as the stream's only item, the way the static-value merge reports its errors
+			errSR, errSW := schema.Pipe[I](1)
+			var zero I
+			errSW.Send(zero, fmt.Errorf("field mapping stream converter: incoming stream chunk type is %v, not map[string]any", input.getChunkType()))
+			errSW.Close()
+			return packStreamReader(errSR)
 		}
 
 		return packStreamReader(schema.StreamReaderWithConvert(s, func(v map[string]any) (I, error) {
@@ -203,7 +207,7 @@ func convertTo(mappings map[string]any, typ reflect.Type) (any, error) {
 	for mapping, taken := range mappings {
 		tValue, err = assignOne(tValue, taken, mapping)
 		if err != nil {
-			panic(fmt.Errorf("convertTo failed when must succeed, %w", err))
+			return nil, fmt.Errorf("convertTo failed, %w", err)
 		}
 	}
 
@@ -334,6 +338,9 @@ func assignOne(destValue reflect.Value, taken any, to string) (reflect.Value, er
 
 		ptrValue := destValue
 		for destValue.Kind() == reflect.Ptr {
+			if destValue.IsNil() {
+				return destValue, fmt.Errorf("field mapping to a struct field, but an intermediate pointer is nil, type=%v", destValue.Type())
+			}
 			destValue = destValue.Elem()
 		}
 
@@ -602,7 +609,7 @@ func fieldMap(mappings []*FieldMapping, allowMapKeyNotFound bool) func(any) (map
 						return nil, err
 					}
 
-					panic(safe.NewPanicErr(err, debug.Stack()))
+					return nil, err
 				}
 
 				if i < len(fromPath)-1 {
@@ -634,6 +641,20 @@ func takeOne(inputValue reflect.Value, inputType reflect.Type, from string) (tak
 
 		return f.Interface(), f.Type(), nil
 	case reflect.Ptr, reflect.Interface:
+		// only a non-nil pointer (or interface) to a struct can be descended into: anything else is a request-time error
+		if inputValue.IsNil() || inputValue.Elem().Kind() != reflect.Struct {
+			var actualType reflect.Type
+			if !inputValue.IsNil() {
+				actualType = inputValue.Elem().Type()
+			}
+			if inputType.Kind() == reflect.Interface {
+				return nil, nil, &errInterfaceNotValidForFieldMapping{
+					interfaceType: inputType,
+					actualType:    actualType,
+				}
+			}
+			return nil, nil, fmt.Errorf("field mapping from a field, but input is a nil pointer or does not point to a struct, type= %v", inputValue.Type())
+		}
 		inputValue = inputValue.Elem()
 		fallthrough
 	case reflect.Struct:
